@@ -56,6 +56,19 @@ TypeOK == /\ pc \in {"read", "proc", "emit", "done"} /\ r.st \in {"SILENCE", "PO
           /\ Len(r.buf) < p.max /\ r.sil >= 0 /\ (pc = "emit" <=> pending # NoTok) /\ (done <=> pc = "done")
           /\ nread = Len(stream) /\ late = 0
 
+\* The inductive invariant of the integer abstraction (TokenizerInt, discharged by Apalache for all parameter values),
+\* read on the concrete registers: the abstraction n = Len(buf) is faithful on the grid.
+AbsInv == /\ Len(r.buf) < p.max /\ r.sil >= 0 /\ r.icount >= 0
+          /\ (r.st = "SILENCE" => r.buf = <<>> /\ ~r.contig)
+          /\ (r.st = "POSSIBLE_NOISE" => ~r.contig /\ r.sil <= p.isil /\ Len(r.buf) >= 1)
+          /\ (r.st = "NOISE" => r.sil = 0)
+          /\ (r.st = "POSSIBLE_SILENCE" => r.sil >= 1 /\ r.sil <= p.sil)
+          /\ (r.contig => LET t == IF pending # NoTok THEN pending ELSE IF out # <<>> THEN out[Len(out)] ELSE NoTok IN      \* contig => adj:
+                            t # NoTok /\ r.startf = t.end + 1 /\ Len(t.frames) = p.max)    \* the open buffer starts right after a token cut at max_length
+\* the declarative segmentation written as a pure function (module SegPure, used by Workers / WorkersObs) is the same function
+SegP == INSTANCE SegPure
+SegSame == done => SegP!SegOf(p, stream) = Seg(0)
+
 (* C08, prefix consistency: what an end-of-stream flush would deliver at a suspension point is never
    lost and never shrinks.  fc/nout are snapshots taken when the next frame is requested; they are
    history variables of this property only (module TokenizerPrefix adds them).                    *)
